@@ -1,3 +1,3 @@
 INIT Init
 NEXT Next
-INVARIANTS C16_ConnLimits C16_Total C16_PerPath C16_FIFO C16_NoStolenSlot C16_CancelledNeverRuns C16_IdleAtEnd K16_Conforms
+INVARIANTS C16_ConnLimits C16_ConnIdleAtEnd C16_Total C16_PerPath C16_FIFO C16_NoStolenSlot C16_CancelledNeverRuns C16_IdleAtEnd K16_Conforms
